@@ -63,6 +63,24 @@ theorem discard_predicate_is_strict :
     (Gen.Facts.seqCounterAdds.filter (fun x => x.2.1 == "s.nextRecv")) =
       [("Session.moveRecvBufToRecvQueue", "s.nextRecv", "1")] := by decide
 
+/-- Structural tie (regenerated from session.go): every place that reads or advances `nextSend` — i.e.
+    assigns a sequence number — does so while holding `oLock`, so two segments never get the same
+    number and none is skipped. The Bool is a textual approximation ("between `s.oLock.Lock()` and the
+    next `s.oLock.Unlock()` in source order"); the two `writeChunk` entries read `false` only because
+    the early-return branches of its `select` contain `Unlock` calls textually before the assignment —
+    reviewed: the lock taken right before the loop is held there. `ToSessionInfo` is a read for
+    display. Moving an assignment out of the locked region changes this list and breaks the theorem. -/
+theorem seq_assignment_lock_discipline :
+    Gen.Facts.nextSendUses =
+      [("Session.Write", "s.nextSend.Load()", true), ("Session.Write", "s.nextSend.Add(1)", true),
+       ("Session.ToSessionInfo", "s.nextSend.Load()", false),
+       ("Session.writeChunk", "s.nextSend.Load()", false), ("Session.writeChunk", "s.nextSend.Add(1)", false),
+       ("Session.runOutputOncePacket", "s.nextSend.Load()", true),
+       ("Session.inputData", "s.nextSend.Load()", true), ("Session.inputData", "s.nextSend.Add(1)", true),
+       ("Session.inputClose", "s.nextSend.Load()", true), ("Session.inputClose", "s.nextSend.Add(1)", true),
+       ("Session.closeWithError", "s.nextSend.Load()", true), ("Session.closeWithError", "s.nextSend.Add(1)", true)] := by
+  decide
+
 /-! ## Non-vacuity -/
 example : ∃ s, Reach 4 s ∧ s.acked = [1] ∧ s.sent.length = 2 := by
   let s1 : St := { init with segs := [5] }
